@@ -5,10 +5,11 @@ set -e
 cd "$(dirname "$0")"
 export CARGO_NET_OFFLINE=true
 python3 tools/gen_consts.py > /dev/null
+python3 tools/gen_funcs.py > /dev/null
 (cd lean && lake build SstModel sstdriver $(python3 -c "
 import sys; sys.path.insert(0,'tools')
-from propcfg import PROPS
-print(' '.join(sorted({m for p in PROPS.values() for m in p['lean_modules']})))"))
+from propcfg import PROPS, FUNC_TIES
+print(' '.join(sorted({m for p in PROPS.values() for m in p['lean_modules']} | {m for m, _ in FUNC_TIES.values()})))"))
 [ -f harness/Cargo.lock ] || cp /repo/Cargo.lock harness/Cargo.lock
 (cd harness && cargo build --offline --bins)
 echo setup-ok
